@@ -772,6 +772,12 @@ fn build_item(d: &mut Dice) -> (Item, Vec<String>, Vec<String>) {
                     k += counts[i];
                     vs.push(v);
                 }
+                if nv > 0 && d.chance(35) {
+                    // error.md: a whole variant can be ignored
+                    let k = d.pick(nv);
+                    vs[k].attrs.push("#[error(ignore)]".into());
+                    labels.push("attr=error_variant_ignore".into());
+                }
                 item.kw = "enum";
                 item.name = "E".into();
                 item.body = ItemBody::Enum(vs);
